@@ -93,13 +93,16 @@ pub fn eval_fn(
                 symbol_decl.name),
             symbol_decl.span);
 
+        let mut fn_ctx = (*ctx).clone();
+        fn_ctx.file_handle_ctx = Some(function.body.span().file_handle);
+
         let maybe_result = asm::resolver::eval(
             query.report,
             opts,
             fileserver,
             decls,
             defs,
-            ctx,
+            &fn_ctx,
             &mut args_ctx,
             &function.body);
 
